@@ -79,6 +79,24 @@ class FakeLF:
     def __len__(self):
         return len(self.instances)
 
+    # like sio.LabeledFrame: every third labelled frame holds only PREDICTED instances (a frame of a prediction file, or one
+    # the user has not corrected yet); LabelsReader must deliver it all the same
+    @property
+    def has_user_instances(self):
+        return self.pos % 3 != 1
+
+    @property
+    def has_predicted_instances(self):
+        return self.pos % 3 == 1
+
+    @property
+    def user_instances(self):
+        return list(self.instances) if self.has_user_instances else []
+
+    @property
+    def predicted_instances(self):
+        return [] if self.has_user_instances else list(self.instances)
+
     @property
     def image(self):
         L = self._labels
@@ -110,3 +128,11 @@ class FakeLabels:
 
     def __iter__(self):
         return iter(self.lfs)
+
+    @property
+    def labeled_frames(self):
+        return self.lfs
+
+    @property
+    def user_labeled_frames(self):
+        return [lf for lf in self.lfs if lf.has_user_instances]
